@@ -17,7 +17,12 @@ def run(ctx):
     from . import guardvocab
     guardvocab.G0(ctx, effects={'backtrack'})
     guardvocab.G1(ctx, effects={'backtrack'})
+    guardvocab.G2(ctx, scopes=('rt::path::',))
+    guardvocab.G3(ctx, scopes=('rt::path::',))
     pathrules.E1(ctx)
     pathrules.E2(ctx)
     pathrules.E3(ctx)
     pathrules.E4(ctx)
+    # the bound survives a checkpoint / resume
+    from . import modelrules
+    modelrules.Z1(ctx)
